@@ -737,7 +737,7 @@ def key_expr(e):
     elif e.__class__ == ExprCond:
         return [ 2, key_expr(e.cond), key_expr(e.src1), key_expr(e.src2) ]
     elif e.__class__ == ExprMem:
-        return [ 3, key_expr(e.arg), e.size ]
+        return [ 3, key_expr(e.arg), e.size, str(e.segm or '') ]
     elif e.__class__ == ExprOp:
         return [ 4, e.op ] + [ key_expr(e) for e in e.args ]
     elif e.__class__ == ExprSlice:
